@@ -181,14 +181,14 @@ func contentPlan(prop string, tier string, root *simcore.RNG, sinks []string, nq
 
 func planC13(tier string, root *simcore.RNG) *plan {
 	pl := contentPlan("C13", tier, root, []string{"stl"}, 320, 30000)
-	pl.rule = "episode = a seeded triangle list (0..2000 triangles; coordinates: small integers, ordinary model range, values that need rounding to float32, float32-subnormal and tiny, huge up to near MaxFloat32, decimal halfway cases, shared vertices, duplicate and degenerate triangles) written (i) through ToSTL by a scripted renderer under a seeded batch partition and producer/consumer schedule and (ii) through SaveSTL; oracle: (i) and (ii) byte-identical; independent decoder finds 80-byte header, count = N, size 84+50N, per record the float32 rounding of the inputs in order and winding, zero attribute bytes, right-hand-rule unit normal (well-conditioned triangles only); LoadSTL of both files returns exactly those float32 values in order; a well-formed ASCII STL of the same list (shortest round-trip decimal text) loads to exactly the float64 values it lists. Non-trivial = N > 0; distinct = (trace hash, coordinate class)."
+	pl.rule = "episode = a seeded triangle list (0..2000 triangles; coordinates: small integers, ordinary model range, values that need rounding to float32, float32-subnormal and tiny, huge up to near MaxFloat32, decimal halfway cases, shared vertices, duplicate and degenerate triangles) written (i) through ToSTL by a scripted renderer under a seeded batch partition and producer/consumer schedule and (ii) through SaveSTL (incl. slow consumers and an 11 s renderer pause in real time, trigger sweeps over the instrumented code locations, round counts up to 2^16 + 1 on both builds); oracle: (i) and (ii) byte-identical; independent decoder finds 80-byte header, count = N, size 84+50N, per record the float32 rounding of the inputs in order and winding, zero attribute bytes, right-hand-rule unit normal (well-conditioned triangles only); LoadSTL of both files returns exactly those float32 values in order - compared after other files have been loaded, and again from a second load after the first result was edited in place; a well-formed ASCII STL of the same list (shortest round-trip decimal text) loads to exactly the float64 values it lists. Non-trivial = N > 0; distinct = (trace hash, coordinate class)."
 	pl.assume = []string{"the schedule/batching dimension is what simulation adds; the coordinate dimension is seeded input generation", "normals are compared only for triangles whose edges are resolvable at the magnitude of their vertices (relative sine > 1e-3)"}
 	return pl
 }
 
 func planC15(tier string, root *simcore.RNG) *plan {
 	pl := contentPlan("C15", tier, root, []string{"3mf", "dxf", "svg", "3mf"}, 320, 30000)
-	pl.rule = "episode = a seeded triangle / segment list (empty, duplicates, shared vertices, negative, tiny, large, decimal halfway cases) written through To3MF/ToDXF/ToSVG by a scripted renderer under a seeded batch partition and schedule, and through SaveDXF/SaveSVG; files are decoded by the harness's own readers (zip+xml, DXF group codes, xml). Reference model from the property statement: 3MF one millimetre object, one build item, triangles in input order and winding whose resolved vertices equal the inputs rounded to float32 then to 4 decimals, vertex table de-duplicated (no more entries than distinct float32 inputs, none unreferenced); DXF one LINE per segment on layer Lines, z=0, coordinates parsing back to exactly the inputs, input order, no other entities; SVG one <line> per segment at (x-minX, maxY-y) to 2 decimals, canvas = extent to 2 decimals. Non-trivial = N > 0; distinct = (trace hash, coordinate class)."
+	pl.rule = "episode = a seeded triangle / segment list (empty, duplicates, shared vertices, negative, tiny, large, decimal halfway cases) written through To3MF/ToDXF/ToSVG by a scripted renderer under a seeded batch partition and schedule, through SaveDXF/SaveSVG, and step by step through the drawing objects (NewDXF/Line/Lines/Points/Save, NewSVG/Line/Save; Save repeated; caller storage overwritten after each call) (incl. slow consumers and an 11 s renderer pause in real time, trigger sweeps over the instrumented code locations, round counts up to 2^16 + 1 on both builds); files are decoded by the harness's own readers (zip+xml, DXF group codes, xml). Reference model from the property statement: 3MF one millimetre object, one build item, triangles in input order and winding whose resolved vertices equal the inputs rounded to float32 then to 4 decimals, vertex table de-duplicated (no more entries than distinct float32 inputs, none unreferenced); DXF one LINE per segment on layer Lines, z=0, coordinates parsing back to exactly the inputs, input order, no other entities; SVG one <line> per segment at (x-minX, maxY-y) to 2 decimals, canvas = extent to 2 decimals. Non-trivial = N > 0; distinct = (trace hash, coordinate class)."
 	pl.assume = []string{"the schedule/batching dimension is what simulation adds; the coordinate dimension is seeded input generation"}
 	return pl
 }
